@@ -60,6 +60,31 @@ class Report:
     def note(self, s):
         self.notes.append(s)
 
+    def absorb(self, other, rules=None, why=""):
+        """take over the rule instances of another property's report (rules shared between properties: the other
+        property's structural clauses are necessary conditions of this one as well).  Instances already present
+        (same rule and key) are not duplicated."""
+        have = set((i["rule"], i["key"]) for i in self.instances)
+        n = 0
+        for r, t in other.rules.items():
+            if rules is None or r in rules:
+                self.rules.setdefault(r, t + (" (shared with %s%s)" % (other.prop, ": " + why if why else "")))
+        for i in other.instances:
+            if rules is not None and i["rule"] not in rules:
+                continue
+            if (i["rule"], i["key"]) in have:
+                continue
+            have.add((i["rule"], i["key"]))
+            self.instances.append(dict(i))
+            n += 1
+        self.analysed_fns |= other.analysed_fns
+        self.sites += other.sites
+        self.notes.append("shared with %s: %d rule instances%s" % (other.prop, n, " (%s)" % why if why else ""))
+        for a in other.assumptions:
+            if a not in self.assumptions:
+                self.assumptions.append(a)
+        return n
+
     # -- finishing
     def finish(self):
         known = load_known()
